@@ -1,7 +1,7 @@
 (* C06 - solve honours its timeout and never claims an unreachable goal (the part that is logic).
    The wall clock is an oracle: [budget] = the number of loop-top deadline checks that pass. *)
 From Coq Require Import ZArith NArith List Bool Floats.
-From OX Require Import Numerics.FloatBits Gen.Consts Planners.Model Proofs.TreeInv Proofs.Repro Proofs.Final Proofs.NoPanic Proofs.ApiStruct.
+From OX Require Import Numerics.FloatBits Gen.Consts Planners.Model Proofs.TreeInv Proofs.Repro Proofs.Final Proofs.NoPanic Proofs.ApiStruct Proofs.NoFalse.
 Import ListNotations.
 
 Section C06.
@@ -40,25 +40,44 @@ Theorem C06_one_check_per_iteration_rrt : forall n k p v t g pos t' pos',
   rrt_loop dist interp lvs valid goal u64_at usample gsample maxd bias k p v t' g pos'.
 Proof. exact (rrt_loop_prefix dist interp lvs valid goal u64_at usample gsample maxd bias). Qed.
 
-(* (ii) no false success: whatever the world - sealed goal, sealed start, invalid goal region - a path is
-   only ever returned if it is sound: so when no sound path exists the answer is an error *)
-Definition sound_path (v : V) (p : P) (path : list S) : Prop :=
-  (exists s0 rest tl_, starts p = s0 :: rest /\ path = s0 :: tl_) /\
-  (exists l x, path = l ++ [x] /\ goal p x = true) /\
-  chain (fun a b => check_motion dist interp lvs valid v a b = true \/ check_motion dist interp lvs valid v b a = true) path.
+Theorem C06_one_check_per_iteration_rrtstar : forall n k p v t g pos t' pos',
+  rrtstar_loop dist interp lvs valid goal u64_at usample gsample maxd bias radius n p v t g pos = (t', pos', RErr ETimeout) ->
+  rrtstar_loop dist interp lvs valid goal u64_at usample gsample maxd bias radius (n + k) p v t g pos =
+  rrtstar_loop dist interp lvs valid goal u64_at usample gsample maxd bias radius k p v t' g pos'.
+Proof. exact (rrtstar_loop_prefix dist interp lvs valid goal u64_at usample gsample maxd bias radius). Qed.
 
-Theorem C06_no_false_success_rrt : forall seeded cs s rs c s' r,
-  run (rrt_step dist interp lvs valid goal starts u64_at usample gsample maxd bias) (new_planner seeded) cs = (s, rs) ->
-  rrt_step dist interp lvs valid goal starts u64_at usample gsample maxd bias s c = (s', r) ->
-  (forall v p path, vc s = Some v -> pd s = Some p -> ~ sound_path v p path) ->
-  forall path, r <> RPath path.
-Proof.
-  intros sd cs s rs c s' r Hrun Hstep Hnone path Hr.
-  destruct (rrt_paths_sound dist interp lvs valid goal starts u64_at usample gsample maxd bias _ _ _ _ _ _ _ Hrun Hstep path Hr)
-    as (p & v & s0 & rest & Ep & Ev & Es & (tl_ & Hhd) & Hlast & Hc).
-  apply (Hnone v p path Ev Ep). split; [exists s0, rest, tl_; split; assumption|]. split; [exact Hlast|].
-  eapply chain_impl; [|exact Hc]. intros a b [H _]; left; exact H.
-Qed.
+Theorem C06_one_check_per_iteration_rrtconnect : forall n k p v ts tg g pos ts' tg' pos',
+  rrtc_loop dist interp lvs valid goal u64_at usample gsample maxd bias n p v ts tg g pos = (ts', tg', pos', RErr ETimeout) ->
+  rrtc_loop dist interp lvs valid goal u64_at usample gsample maxd bias (n + k) p v ts tg g pos =
+  rrtc_loop dist interp lvs valid goal u64_at usample gsample maxd bias k p v ts' tg' g pos'.
+Proof. exact (rrtc_loop_prefix dist interp lvs valid goal u64_at usample gsample maxd bias). Qed.
+
+Theorem C06_one_check_per_iteration_prm_build : forall n k v rm g pos rm' pos',
+  prm_build dist interp lvs valid usample radius n v rm g pos = (rm', pos', RUnit) ->
+  prm_build dist interp lvs valid usample radius (n + k) v rm g pos =
+  prm_build dist interp lvs valid usample radius k v rm' g pos'.
+Proof. exact (prm_build_prefix dist interp lvs valid usample radius). Qed.
+
+(* (ii) no false success: whatever the world - sealed goal, sealed start, invalid goal region - a path is
+   only ever returned if it is sound (NoFalse.sound_path: head = first start, last state in the goal
+   region, every segment accepted by a motion check): so when no sound path exists the answer is an
+   error, for every API history, sampler behaviour and iteration budget *)
+Theorem C06_no_false_success_rrt :
+  no_false_success dist interp lvs valid goal starts (rrt_step dist interp lvs valid goal starts u64_at usample gsample maxd bias).
+Proof. exact (no_false_success_rrt dist interp lvs valid goal starts u64_at usample gsample maxd bias). Qed.
+
+Theorem C06_no_false_success_rrtstar :
+  no_false_success dist interp lvs valid goal starts (rrtstar_step dist interp lvs valid goal starts u64_at usample gsample maxd bias radius).
+Proof. exact (no_false_success_rrtstar dist interp lvs valid goal starts u64_at usample gsample maxd bias radius). Qed.
+
+Theorem C06_no_false_success_rrtconnect :
+  goal_sampler_sound goal gsample ->
+  no_false_success dist interp lvs valid goal starts (rrtc_step dist interp lvs valid goal starts u64_at usample gsample maxd bias).
+Proof. exact (no_false_success_rrtconnect dist interp lvs valid goal starts u64_at usample gsample maxd bias). Qed.
+
+Theorem C06_no_false_success_prm :
+  no_false_success dist interp lvs valid goal starts (prm_step dist interp lvs valid goal starts usample radius).
+Proof. exact (no_false_success_prm dist interp lvs valid goal starts usample radius). Qed.
 
 (* (iii) each iteration is finite when the resolution is positive: the number of validity queries of one
    motion check is num_steps, a finite usize; path extraction terminates (C15).  With the resolution
@@ -75,5 +94,11 @@ Print Assumptions C06_timeout_zero_rrtstar.
 Print Assumptions C06_timeout_zero_rrtconnect.
 Print Assumptions C06_build_time_zero_prm.
 Print Assumptions C06_one_check_per_iteration_rrt.
+Print Assumptions C06_one_check_per_iteration_rrtstar.
+Print Assumptions C06_one_check_per_iteration_rrtconnect.
+Print Assumptions C06_one_check_per_iteration_prm_build.
 Print Assumptions C06_no_false_success_rrt.
+Print Assumptions C06_no_false_success_rrtstar.
+Print Assumptions C06_no_false_success_rrtconnect.
+Print Assumptions C06_no_false_success_prm.
 Print Assumptions C06_refuted_zero_resolution.
